@@ -117,7 +117,8 @@ def gen_case(rng: random.Random, tier: str):
         elif r < 0.8:
             ops.append({"op": "undefine", "name": rng.choice(IDENTS)})
         elif r < 0.93:
-            ops.append({"op": "parse_len", "e": e, "n": rng.randrange(6), "m": rng.randrange(6)})
+            ops.append({"op": "parse_len", "e": e, "n": rng.randrange(6), "m": rng.randrange(6),
+                        "ntype": rng.choice(["uint8", "uint8", "LE8", "LF8", "int8"])})
         else:
             ops.append({"op": "embed", "e": e, "how": rng.choice(["define", "enum"])})
     return {"exprs": exprs, "consts": consts, "ops": ops}
@@ -254,6 +255,8 @@ def run_case(case, stats):
 
     cs = cstruct()
     cs.load("struct T3 { uint8 a; uint16 b; };")
+    # field types whose parsed values are not plain ints: enum and flag members (the evaluator must use their integer value)
+    cs.load("enum LE8 : uint8 { LEa = 1, LEb = 2, LEc = 4 }; flag LF8 : uint8 { LFa = 1, LFb = 2, LFc = 4 };")
     cs.add_type("T3alias", "T3")   # aliases stored as names in the type table (string -> string -> type)
     cs.add_type("W2", "WORD")
     consts = dict(case["consts"])
@@ -353,7 +356,8 @@ def run_case(case, stats):
             ctx = {"n": op["n"], "m": op["m"]}
             ref = ref_eval(toks, lookup_for(ctx))
             # the expression as array length of a structure: evaluated through BaseArray._read on the shared object
-            sname = f"L{op['e']}"
+            ntype = op.get("ntype", "uint8")
+            sname = f"L{op['e']}_{ntype}"
             if sname not in state:
                 # the parser folds a length that evaluates without any field context at load time; only lengths that
                 # cannot be folded (they need n/m) stay live expressions on the array type
@@ -362,7 +366,7 @@ def run_case(case, stats):
                     state[sname] = False  # never load a folded length that is unspecified or large (memory)
                     continue
                 try:
-                    cs.load(f"struct {sname} {{ uint8 n; uint8 m; uint8 d[{text}]; uint8 tail; }};")
+                    cs.load(f"struct {sname} {{ {ntype} n; uint8 m; uint8 d[{text}]; uint8 tail; }};")
                     state[sname] = fold[0] == "err"
                     stats.count("probe.length_live" if state[sname] else "probe.length_folded_at_load")
                 except Exception as ex:  # noqa: BLE001
